@@ -15,6 +15,12 @@ def foreign_rendering(data):
     """the same document as another producer may write it: metadata headers without the
     optional `format`, preambles not indented and without an `indent` option (the parser then
     records `indent = None`)"""
+    # a producer may declare the encoding on the changes instead of the main header (only when
+    # no main-level text needs it): the parsed tree then has no main `encoding` option
+    m0 = re.match(rb'#diffx: encoding=([A-Za-z0-9_.-]+), version=1.0\n', data)
+    if m0 and b'\n#.preamble:' not in data and b'\n#.meta:' not in data:
+        data = b'#diffx: version=1.0\n' + data[m0.end():]
+        data = re.sub(rb'^#\.change:\n', b'#.change: encoding=' + m0.group(1) + b'\n', data, flags=re.M)
     out = bytearray()
     pos = 0
     while pos < len(data):
